@@ -2,7 +2,7 @@
 import re
 
 from ..flow import bool_branch, discr_branch, edge_dominates, must_pass, awaited
-from ..mir import op_base, op_const, short
+from ..mir import op_base, op_const, short, const_int as const_int_
 from .panics import resolve_place, pretty_sig
 
 EXPLANATION = (
@@ -18,6 +18,11 @@ NOT_DECIDED = ["FIN vs RST timing, promptness", "TLS close_notify"]
 
 ESCAPE = re.compile(r"^(std::os::fd::raw::IntoRawFd::into_raw_fd|core::mem::forget|core::mem::manually_drop::ManuallyDrop::<T>::new|"
                     r"alloc::boxed::Box::<T, A>::leak|alloc::boxed::Box::<T, A>::into_raw|std::os::fd::owned::OwnedFd::into_raw_fd)$")
+
+
+def flow_forward_(fn, seeds):
+    from ..flow import flow_forward
+    return flow_forward(fn, seeds, [r"Try::from_output$"])[0]
 
 
 def run(chk, prog):
@@ -37,8 +42,30 @@ def run(chk, prog):
         return b in f.reach_from(f.succ[b])
     resid = [c.bb for c in f.calls if re.search(r"FromResidual", c.path or "")]
     inc = [c for c in f.calls if re.search(r"ContextStatistics::incr_sent_bytes$", c.name or "")]
+    # the raw-fd sink is recognised by what the implementations of its methods do, not by their names: a dynamically dispatched
+    # method of a local trait is a raw-fd *transfer* when an implementation reaches common::splice::async_splice, and a raw-fd
+    # *shutdown* when an implementation reaches a socket shutdown call
+    SOCK_SHUT = re.compile(r"nix::sys::socket::shutdown$|libc::(unix::)?.*shutdown$|std::net::\w+::\w+::shutdown$|socket2::\w+::\w+::shutdown$|std::sys::.*shutdown$")
+    def impl_reaches(c, rx):
+        try:
+            tg = prog.virtual_targets(c)
+        except Exception:
+            tg = []
+        for k in tg:
+            for rk in prog.reachable_fns([k]):
+                g_ = prog.fns.get(rk)
+                if g_ is not None and any(rx.search(x.name or x.path or "") for x in g_.calls):
+                    return True
+        return False
+    SPL = re.compile(r"splice::async_splice$")
+    virt = [c for c in f.calls if c.virtual]
+    raw_w = [c for c in virt if in_loop(c.bb) and impl_reaches(c, SPL)]
+    raw_s = [c for c in virt if not in_loop(c.bb) and impl_reaches(c, SOCK_SHUT)]
     arms = {}
     for kind, (wrx, srx) in KINDS.items():
+        if kind == "rawfd":
+            arms[kind] = (raw_w, raw_s + [c for c in f.calls if SOCK_SHUT.search(c.name or c.path or "") and not in_loop(c.bb)])
+            continue
         ws = [c for c in f.calls if (re.search(wrx, c.path or "") or re.search(wrx, c.virtual or "")) and in_loop(c.bb)]
         sd = [c for c in f.calls if (re.search(srx, c.path or "") or re.search(srx, c.virtual or "") or re.search(srx, c.name or "")) and not in_loop(c.bb)]
         arms[kind] = (ws, sd)
@@ -99,27 +126,82 @@ def run(chk, prog):
 
     # ---------------------------------------------------------------- copy_bidi completion
     cb = prog.body_of(prog.one(r"^copy::copy_bidi$"))
-    isn = [c for c in cb.calls if re.search(r"Option::<T>::is_none$", c.path or "")]
-    # Ok(()) assignments to _0
+    # Ok(()) results
+    from ..flow import option_tests
     oks = []
     for b in cb.reachable:
         for st in cb.stmts(b):
-            if st["k"] == "assign" and st["lhs"][0] == 0 and st["rv"]["k"] == "agg" and st["rv"].get("variant") == "Ok":
-                oks.append(b)
-    sigs = set()
+            if st["k"] == "assign" and st["rv"]["k"] == "agg" and st["rv"].get("variant") == "Ok" and st["rv"].get("def", "").endswith("result::Result") \
+                    and not any(re.search(r"FromResidual|Try::from_output", c.path or "") for c in cb.calls if c.bb == b):
+                if st["lhs"][0] == 0 or 0 in flow_forward_(cb, [st["lhs"][0]]):
+                    oks.append(b)
+    # completion flags: Option slots (any spelling of the test) or bool flags whose "done" edge dominates the Ok result
+    flags = {}
     for okb in oks:
-        for g in isn:
-            sig = resolve_place(cb, op_base(g.args[0]))[0]
-            for (sb, tt, ft) in bool_branch(cb, g.dest[0]):
-                if edge_dominates(cb, sb, ft, okb):
-                    sigs.add(sig)
-    ok = bool(oks) and len(sigs) >= 2
-    chk.instance("both-halves", "%s:%s" % (cb.file, cb.line), "copy_bidi returns Ok only when both completion slots are Some", ok,
-                 "guards on %s" % sorted(pretty_sig(s) for s in sigs if s))
+        for o in option_tests(cb):
+            if o["kind"] == "Option" and edge_dominates(cb, o["pos"][0], o["pos"][1], okb):
+                flags.setdefault(("opt", o["root"]), set()).add(okb)
+        for b in cb.reachable:
+            t = cb.term(b)
+            if t and t["k"] == "switch":
+                l = op_base(t["d"])
+                pl = t["d"].get("m") or t["d"].get("c")
+                if l is None or len(pl) != 1:
+                    continue
+                # follow one copy back to a named bool flag
+                root = l
+                d_ = cb.single_def(l)
+                if d_ and d_[1] != "term" and d_[2]["k"] == "use" and "k" not in d_[2]["a"] and len(d_[2]["a"].get("m") or d_[2]["a"].get("c")) == 1:
+                    root = (d_[2]["a"].get("m") or d_[2]["a"].get("c"))[0]
+                if cb.local_ty(root)["k"] != "bool" or not cb.local_name(root):
+                    continue
+                zero = [tb for v, tb in t["ts"] if v == 0]
+                true_t = t["o"]
+                if zero and true_t != zero[0] and edge_dominates(cb, b, true_t, okb):
+                    flags.setdefault(("bool", root), set()).add(okb)
+    good = [k for k, v in flags.items() if v == set(oks)]
+    # where each flag is raised: inside different arms of the select! that polls the two halves
+    def set_blocks(kind, root):
+        out = []
+        for (b, i, rv) in cb.defs.get(root, []):
+            if i == "term":
+                continue
+            src = rv
+            if rv["k"] == "use" and "k" not in rv["a"] and op_base(rv["a"]) is not None:
+                d1 = cb.single_def(op_base(rv["a"]))
+                if d1 and d1[1] != "term":
+                    src = d1[2]
+            if kind == "opt" and src["k"] == "agg" and src.get("variant") == "Some":
+                out.append(b)
+            if kind == "bool" and rv["k"] == "use" and const_int_(rv["a"]) == 1:
+                out.append(b)
+        return out
+    arms_of = {}
+    sel_sw = []
+    for b in cb.reachable:
+        for st in cb.stmts(b):
+            if st["k"] == "assign" and st["rv"]["k"] == "discr" and len(st["rv"]["p"]) == 1 and "select_util::Out" in cb.local_ty_s(st["rv"]["p"][0]):
+                for bb in cb.reachable:
+                    tt_ = cb.term(bb)
+                    if tt_ and tt_["k"] == "switch" and op_base(tt_["d"]) == st["lhs"][0]:
+                        sel_sw.append((bb, dict((v, x) for v, x in tt_["ts"])))
+    for k in good:
+        sb_ = set_blocks(*k)
+        arms = set()
+        for (bb, tg) in sel_sw:
+            for v, tb in tg.items():
+                if sb_ and all(edge_dominates(cb, bb, tb, x) for x in sb_):
+                    arms.add(v)
+        arms_of[k] = arms
+    distinct = len(good) >= 2 and (not sel_sw or len(set(frozenset(a) for a in arms_of.values() if a)) >= 2)
+    ok = bool(oks) and distinct
+    sigs = set("%s:%s" % (k[0], cb.local_name(k[1]) or k[1]) for k in good)
+    chk.instance("both-halves", "%s:%s" % (cb.file, cb.line), "copy_bidi returns Ok only when both completion flags are raised, each in its own select! arm", ok,
+                 "flags %s, raised in arms %s" % (sorted(sigs), {("%s:%s" % (k[0], cb.local_name(k[1]) or k[1])): sorted(v) for k, v in arms_of.items()}))
     if not ok:
         chk.finding("both-halves", cb.key, "ok-return", "", "%s:%s" % (cb.file, cb.line),
-                    "copy_bidi can return Ok before both directions have finished (Ok return dominated by not-None edges of %s): the first EOF "
-                    "tears down the direction that is still flowing" % sorted(pretty_sig(s) for s in sigs if s))
+                    "copy_bidi can return Ok before both directions have finished (Ok result dominated by the completion flags %s): the first EOF "
+                    "tears down the direction that is still flowing" % sorted(sigs))
     # the select! that drives the halves must not drop one on completion of the other: both futures are pinned outside the loop
     pins = [c for c in cb.calls if re.search(r"pin::Pin::<Ptr>::new_unchecked$", c.path or "")]
     halves = [c for c in cb.calls if re.search(r"copy::copy_half$", c.name or "")]
